@@ -154,6 +154,8 @@ type Engine struct {
 	modPath   string
 	funcDecls map[string]*funcInfo // key pkg::funckey
 	warnings  []string
+	overlay   map[string][]byte
+	srcCache  map[string][]byte
 }
 
 type funcInfo struct {
@@ -445,6 +447,12 @@ func (fc *FuncCtx) bindOf(t types.Type) string {
 			if b, ok := fc.binds["*"+nm.Obj().Name()]; ok {
 				return b
 			}
+			// value-like theories apply to pointers to the bound type as well (big integers are handled by pointer)
+			for _, key := range []string{nm.Obj().Name(), pkgQual(nm)} {
+				if b, ok := fc.binds[key]; ok && (b == "bigint" || b == "bigintS") {
+					return b
+				}
+			}
 		}
 		return ""
 	}
@@ -461,9 +469,16 @@ func (fc *FuncCtx) bindOf(t types.Type) string {
 	return ""
 }
 
+func pkgQual(nm *types.Named) string {
+	if nm.Obj().Pkg() != nil {
+		return nm.Obj().Pkg().Name() + "." + nm.Obj().Name()
+	}
+	return nm.Obj().Name()
+}
+
 func theorySort(b string) *Sort {
 	switch b {
-	case "ringint", "int":
+	case "ringint", "int", "bigint":
 		return SInt
 	}
 	return SV
@@ -579,7 +594,17 @@ func (fc *FuncCtx) typeFacts(t *Term, typ types.Type) *Term {
 	if t == nil || typ == nil {
 		return TTrue
 	}
-	if fc.bindOf(typ) != "" {
+	if b := fc.bindOf(typ); b != "" {
+		if b == "bigint" && t.Sort.Kind == "Int" {
+			// naturals are non-negative, positive naturals positive (type invariants of pkg/base/nt/num)
+			s := typ.String()
+			switch {
+			case strings.HasSuffix(s, "num.NatPlus"):
+				return Gt(t, IntLit(0))
+			case strings.HasSuffix(s, "num.Nat"), strings.HasSuffix(s, "num.Uint"), strings.HasSuffix(s, "numct.Nat"):
+				return Ge(t, IntLit(0))
+			}
+		}
 		return TTrue
 	}
 	switch t.Sort.Kind {
